@@ -289,20 +289,24 @@ var templates = map[string]func(n, m int) string{
 		b.WriteString("\n")
 		return b.String()
 	},
-	// many nested functions with upvalues through several levels
+	// m%3+1 enclosing levels with n locals each; the innermost function refers to every one of them (n*(m%3+1) upvalues)
 	"upvalues": func(n, m int) string {
 		var b strings.Builder
-		for i := 0; i < n; i++ {
-			fmt.Fprintf(&b, "local u%d = %d\n", i, i)
-		}
-		b.WriteString("local function f()\n return function()\n  return ")
-		for i := 0; i < n; i++ {
-			if i > 0 {
-				b.WriteString(" + ")
+		levels := m%3 + 1
+		var names []string
+		for l := 0; l < levels; l++ {
+			for i := 0; i < n; i++ {
+				fmt.Fprintf(&b, "local u%d_%d = %d\n", l, i, i)
+				names = append(names, fmt.Sprintf("u%d_%d", l, i))
 			}
-			fmt.Fprintf(&b, "u%d", i)
+			if l < levels-1 {
+				b.WriteString("return (function()\n")
+			}
 		}
-		b.WriteString("\n end\nend\nreturn f()()\n")
+		b.WriteString("local function f()\n return function()\n  return " + strings.Join(names, " + ") + "\n end\nend\nreturn f()()\n")
+		for l := 0; l < levels-1; l++ {
+			b.WriteString("end)()\n")
+		}
 		return b.String()
 	},
 }
@@ -323,7 +327,7 @@ var grids = []grid{
 	{"nesting", []int{1, 2, 10, 50, 100, 150, 190, 195, 199, 200, 201, 220}, []int{0, 1, 2, 3}, false},
 	{"long_body", []int{1, 10, 1000, 131060, 131066, 131067, 131068, 131069, 131070, 131071, 131072, 131073, 131074, 131075, 131080, 140000, 262150}, []int{0, 1, 2, 3, 4, 5}, true},
 	{"chains", []int{1, 2, 50, 100, 199, 200, 201, 255, 256, 300, 1000}, []int{0, 1, 2, 3}, false},
-	{"upvalues", []int{1, 30, 59, 60, 61, 100}, []int{0}, false},
+	{"upvalues", []int{1, 30, 59, 60, 61, 84, 85, 86, 100, 127, 128, 129, 150, 190}, []int{0, 1, 2}, false},
 }
 
 // TestTemplates runs the whole template grid (quick tier: the big ones at fewer sizes).
